@@ -282,6 +282,11 @@ def make_declaration_grammar(g: Grammar, gx):
     g.prod("enumerator-list", [N("enumerator"), Star(T("COMMA"), N("enumerator")), Opt(T("COMMA"))],
            build=lambda v, gx: A.EnumeratorList([v[0]] + [r[1] for r in v[1]], ANY_INSIDE), label="enumerator-list: enumerator (, enumerator)* ,?")
     g.nt("enumerator", "_parse_enumerator", opaque=lambda gx, m: A.Enumerator(f"e{m.mid}", None, mcoord(m)))
+    # 6.2.1/6.2.3: an inner scope may declare an enumerator whose spelling is a typedef name of an outer scope
+    g.nt("enumerator[typedef-name]")
+    g.prod("enumerator[typedef-name]", [T("TYPEID"), Opt(T("EQUALS"), N("constant-expression"))],
+           build=lambda v, gx: A.Enumerator(v[0].value, v[1][1] if v[1] else None, co(v[0])),
+           label="enumerator: enumeration-constant spelled like a visible typedef name", note="typedef-reuse")
     g.prod("enumerator", [T("ID"), Opt(T("EQUALS"), N("constant-expression"))],
            build=lambda v, gx: A.Enumerator(v[0].value, v[1][1] if v[1] else None, co(v[0])), label="enumerator: enumeration-constant (= constant-expression)?")
 
@@ -551,6 +556,9 @@ def add_variants(g: Grammar, gx):
         "_parse_typeid_declarator": [("declarator[typeid]", lambda gx, p: ((), {}))],
         "_parse_typeid_noparen_declarator": [("declarator[typeid-noparen]", lambda gx, p: ((), {}))],
     }
+    g.variants["_parse_labeled_statement"] = [("labeled-statement", lambda gx, p: ((), {})), ("labeled-statement[typedef-name]", lambda gx, p: ((), {}))]
+    g.variants["_parse_jump_statement"] = [("jump-statement", lambda gx, p: ((), {})), ("jump-statement[typedef-name]", lambda gx, p: ((), {}))]
+    g.variants["_parse_enumerator"] = [("enumerator", lambda gx, p: ((), {})), ("enumerator[typedef-name]", lambda gx, p: ((), {}))]
     g.eof_ok = {"translation-unit", "translation-unit-or-empty", "external-declaration"}
     # methods that take their first token without looking at its type: what their callers must guarantee
     g.entry_pre = {"_parse_struct_or_union_specifier": {"STRUCT", "UNION"}}
